@@ -1400,13 +1400,17 @@ impl TypedExpr {
                 }
             }
             ExprEnum::StructLiteral(struct_name, fields) => {
-                let fields: HashMap<_, _> = fields.iter().cloned().collect();
+                // the fields are evaluated in the order in which they are written...
+                let mut fields: HashMap<_, _> = fields
+                    .iter()
+                    .map(|(field_name, value)| (field_name, value.compile(prg, env, circuit)))
+                    .collect();
+                // ...and laid out in the order of the struct definition:
                 let struct_def = prg.struct_defs.get(struct_name.as_str()).unwrap();
                 let mut wires =
                     Vec::with_capacity(ty.size_in_bits_for_defs(prg, circuit.const_sizes()));
                 for (field_name, _) in struct_def.fields.iter() {
-                    let value = fields.get(field_name).unwrap();
-                    wires.extend(value.compile(prg, env, circuit));
+                    wires.extend(fields.remove(field_name).unwrap());
                 }
                 wires
             }
